@@ -46,6 +46,8 @@ OF OR IN CONNECTION WITH THE SOFTWARE OR THE USE OR OTHER DEALINGS IN THE SOFTWA
 
 #include "SimpSMTSolver.h"
 
+#include <common/VerifSim.h>
+
 #include <common/ReportUtils.h>
 
 //=================================================================================================
@@ -280,6 +282,7 @@ bool SimpSMTSolver::strengthenClause(CRef cr, Lit l)
         n_occ[toInt(l)]--;
         updateElimHeap(var(l));
     }
+    OSMT_SIM_CLAUSE(&theory_handler, opensmt::verifsim::CK_STRENGTHENED, &c[0], static_cast<int>(c.size()));
 
     return c.size() == 1 ? enqueue(c[0]) && propagate() == CRef_Undef : true;
 }
@@ -615,6 +618,7 @@ bool SimpSMTSolver::eliminateVar(Var v)
         removeClause(cls[i]);
 
     // Produce clauses in cross product:
+    OSMT_SIM_CLAUSE(&theory_handler, opensmt::verifsim::CK_ELIM_BEGIN, nullptr, 0);
     for (int i = 0; i < pos.size(); i++) {
         for (int j = 0; j < neg.size(); j++) {
             vec<Lit> resolvent;
@@ -624,6 +628,7 @@ bool SimpSMTSolver::eliminateVar(Var v)
         }
     }
 
+    OSMT_SIM_CLAUSE(&theory_handler, opensmt::verifsim::CK_ELIM_END, nullptr, 0);
     // Free occurs list for this variable:
     occurs[v].clear(true);
 
